@@ -33,6 +33,22 @@ def corr(ctx, res, name, label, idxfile):
             first = lines[i][:3000]
     ctx.broken.append(("correspondence", name, {"label": label, "first_mismatch": first, "indices": (mism or "")[:400]}))
 
+def violating(ctx, res, name, klass, idxfile, oracle):
+    """round-2 addendum: mismatching cases whose OBSERVATION violates the property's own predicate (evaluated in
+    Coq) become oracle hits with the case as the failing input"""
+    import re
+    val = res.get(name)
+    if not val or val == "[]":
+        return
+    lines = []
+    p = os.path.join(ctx.work, idxfile)
+    if os.path.exists(p):
+        lines = open(p).read().split("\n")
+    for i in [int(x) for x in re.findall(r"(\d+)", val)][:20]:
+        case = lines[i] if i < len(lines) else "case #%d" % i
+        ctx.hits.append({"key": "C20:model-oracle:%s" % klass, "oracle": oracle, "what": case[:600],
+                         "case": {"index": i, "line": case[:3000]}, "kind": "history"})
+
 def run(ctx):
     ctx.audit("Props.C20", PROPS)
     ctx.extract()
@@ -64,7 +80,7 @@ def run(ctx):
                          "recorder (" + n + "): expiry flags and per-user lists after every save/reload and at the end = model (%s operations)", "c20r_ncases"))
     if s_result is not None:
         jobs.append(("CasesC20S.v", "c20s_mismatches", "CasesC20S.idx",
-                     "subscribers on the production connection path with every lag 0..15: queue never full, stream handed to each = the published sequence (%s publishes and reads)", "c20s_ncases"))
+                     "subscribers on the production connection path with every lag 0..15 and two that stop reading: no operation blocks, queue of a reader never full, stream handed to each reader = the published sequence, to a stalled one = what the model's queue accepted (%s publishes and reads)", "c20s_ncases"))
     if rec_result is not None:
         jobs.append(("CasesC20L.v", "c20l_mismatches", "CasesC20L.idx",
                      "recorder event loop: every history answer and every saved file = model (%s scenarios)", "c20l_ncases"))
@@ -73,6 +89,9 @@ def run(ctx):
     for j, res in zip(jobs, outs):
         if res is not None:
             corr(ctx, res, j[1], j[3] % res.get(j[4], "?"), j[2])
+            if j[1] == "c20s_mismatches":
+                violating(ctx, res, "c20s_violating", "stream", j[2],
+                          "property predicate evaluated in Coq on the observed streams: every operation returned, every healthy subscriber was handed exactly the published sequence, a stalled one a subsequence of it")
     ctx.assumptions = ["clock readings of one recorder never go backwards (hypothesis `monotone` of c20_history); the wall clock is later than 1970-02-01 (no uint64 wrap of now-31d)",
                        "subscriber identity: a detached channel stays in the model's list with live=false instead of being deleted from the map"]
     return ctx.finish("bin/build-coq; coqc Audit_Props_C20/Obl_C20/CasesC20/CasesC20R; go test -overlay TestVerif_C20 (cmd/keymasterd) TestVerif_C20R (eventmon/eventrecorder)",
